@@ -1354,4 +1354,206 @@ theorem prim_sameOut (f : Nat) (b : Builtin) (s s' : St)
       | (cases h; done)
       | (cases h; out_chain; exact ⟨rfl, rfl⟩)
 
+/-! ### sequences of declarations (`ENTRY`) -/
+
+/-- `run` declares exactly `ds` when their names are fresh and fails with `BibTeXError`
+otherwise -/
+def DeclStep (ds : List (Str × VarObj)) (run : St → Except IErr St) : Prop :=
+  ∀ s, (Fresh (ds.map (·.1)) s → ∃ s', run s = .ok s' ∧ Declares ds s s' ∧
+          ∀ m, s'.vars.contains m = (s.vars.contains m || (ds.map (·.1)).any fun n => lower n == lower m)) ∧
+       (¬ Fresh (ds.map (·.1)) s → run s = .error (.bibtex "variable already declared"))
+
+theorem declStep_declare (mk : Str → VarObj) (ns : List Str) :
+    DeclStep (ns.map fun n => (n, mk n)) (declare mk (ns.map Bst.Tok.name)) := by
+  intro s
+  have hmap : (ns.map fun n => (n, mk n)).map (·.1) = ns := by rw [List.map_map]; exact List.map_id' _
+  rw [hmap]
+  exact declare_spec mk ns s
+
+theorem declStep_add (n : Str) (v : VarObj) : DeclStep [(n, v)] (fun s => addVariable s n v) := by
+  intro s
+  constructor
+  · rintro ⟨hf, _⟩
+    have hn := hf n (List.mem_singleton.2 rfl)
+    refine ⟨_, addVariable_ok s n v hn, declares_add s n v, ?_⟩
+    intro m
+    show (s.vars.setItem n v).contains m = _
+    by_cases hm : lower m = lower n
+    · rw [contains_congr _ n m hm, contains_setItem_same]; simp [hm]
+    · rw [contains_setItem_ne _ _ _ _ hm]
+      have : (lower n == lower m) = false := by simp; exact fun e => hm e.symm
+      simp [this]
+  · intro hnf
+    apply addVariable_dup
+    cases hc : s.vars.contains n with
+    | true => rfl
+    | false =>
+      exact absurd ⟨fun m hm => by rcases List.mem_singleton.1 hm with rfl; exact hc, List.pairwise_singleton _ _⟩ hnf
+
+theorem fresh_append (a b : List Str) (s s1 : St)
+    (hc : ∀ m, s1.vars.contains m = (s.vars.contains m || a.any fun n => lower n == lower m)) :
+    Fresh (a ++ b) s ↔ Fresh a s ∧ Fresh b s1 := by
+  unfold Fresh
+  rw [List.pairwise_append]
+  constructor
+  · rintro ⟨hf, hpa, hpb, hx⟩
+    refine ⟨⟨fun n hn => hf n (List.mem_append_left _ hn), hpa⟩, ?_, hpb⟩
+    intro n hn
+    rw [hc n, hf n (List.mem_append_right _ hn), Bool.false_or]
+    rw [Bool.eq_false_iff]
+    intro hany
+    obtain ⟨m, hm, hml⟩ := List.any_eq_true.1 hany
+    exact hx m hm n hn (by simpa using hml)
+  · rintro ⟨⟨hfa, hpa⟩, hfb, hpb⟩
+    refine ⟨?_, hpa, hpb, ?_⟩
+    · intro n hn
+      rcases List.mem_append.1 hn with hn | hn
+      · exact hfa n hn
+      · have := hfb n hn
+        rw [hc n] at this
+        exact (Bool.or_eq_false_iff.1 this).1
+    · intro m hm n hn e
+      have := hfb n hn
+      rw [hc n] at this
+      have h2 := (Bool.or_eq_false_iff.1 this).2
+      have : (a.any fun x => lower x == lower n) = true := List.any_eq_true.2 ⟨m, hm, by simpa using e⟩
+      rw [this] at h2; cases h2
+
+theorem DeclStep.seq {d1 d2 : List (Str × VarObj)} {r1 r2 : St → Except IErr St} (h1 : DeclStep d1 r1) (h2 : DeclStep d2 r2) :
+    DeclStep (d1 ++ d2) (fun s => match r1 s with | .error e => .error e | .ok s1 => r2 s1) := by
+  intro s
+  by_cases hf1 : Fresh (d1.map (·.1)) s
+  · obtain ⟨s1, hr1, hd1, hc1⟩ := (h1 s).1 hf1
+    have hiff := fresh_append (d1.map (·.1)) (d2.map (·.1)) s s1 hc1
+    rw [← List.map_append] at hiff
+    constructor
+    · intro hf
+      have hf2 := (hiff.1 hf).2
+      obtain ⟨s2, hr2, hd2, hc2⟩ := (h2 s1).1 hf2
+      refine ⟨s2, by simp only [hr1]; exact hr2, ?_, ?_⟩
+      · refine Declares.append hd1 hd2 ?_
+        intro p hp q hq e
+        have hx := (List.pairwise_append.1 (by rw [← List.map_append]; exact hf.2)).2.2
+        exact hx p.1 (List.mem_map_of_mem hp) q.1 (List.mem_map_of_mem hq) e.symm
+      · intro m
+        rw [hc2 m, hc1 m, List.map_append, List.any_append, Bool.or_assoc]
+    · intro hnf
+      have hnf2 : ¬ Fresh (d2.map (·.1)) s1 := fun h => hnf (hiff.2 ⟨hf1, h⟩)
+      simp only [hr1]
+      exact (h2 s1).2 hnf2
+  · have hr1 := (h1 s).2 hf1
+    constructor
+    · intro hf
+      refine absurd ⟨fun n hn => hf.1 n ?_, ?_⟩ hf1
+      · rw [List.map_append]; exact List.mem_append_left _ hn
+      · have := hf.2; rw [List.map_append] at this; exact (List.pairwise_append.1 this).1
+    · intro _
+      simp only [hr1]
+
+theorem declStep_entry (fields ints strings : List Str) :
+    DeclStep (entryDecls fields ints strings) (fun s =>
+      match declare (fun n => .field n) (fields.map Bst.Tok.name) s with
+      | .error e => .error e
+      | .ok s =>
+        match addVariable s "crossref".toList .crossref with
+        | .error e => .error e
+        | .ok s =>
+          match declare (fun n => .eint n) (ints.map Bst.Tok.name) s with
+          | .error e => .error e
+          | .ok s => declare (fun n => .estr n) (strings.map Bst.Tok.name) s) := by
+  have h := (declStep_declare (fun n => .field n) fields).seq
+    ((declStep_add "crossref".toList .crossref).seq
+      ((declStep_declare (fun n => .eint n) ints).seq (declStep_declare (fun n => .estr n) strings)))
+  have e : entryDecls fields ints strings =
+      (fields.map fun n => (n, VarObj.field n)) ++ ([("crossref".toList, VarObj.crossref)] ++
+        ((ints.map fun n => (n, VarObj.eint n)) ++ (strings.map fun n => (n, VarObj.estr n)))) := by
+    simp [entryDecls, List.append_assoc]
+  rw [e]
+  exact h
+
+/-! ### sortedness and stability determine the sorted list -/
+
+theorem lexLt_total (a b : Str) : LexLt a b ∨ a = b ∨ LexLt b a := by
+  simp only [lexLt_iff]; exact strLt_total a b
+
+theorem sorted_stable_unique {α : Type} [DecidableEq α] (key : α → Str) (l1 l2 : List α)
+    (h1 : SortedBy key l1) (h2 : SortedBy key l2)
+    (hf : ∀ k, l1.filter (fun a => key a = k) = l2.filter (fun a => key a = k)) : l1 = l2 := by
+  induction l1 generalizing l2 with
+  | nil =>
+    cases l2 with
+    | nil => rfl
+    | cons b r2 => have := hf (key b); simp at this
+  | cons a r1 ih =>
+    cases l2 with
+    | nil => have := hf (key a); simp at this
+    | cons b r2 =>
+      have p1 := List.pairwise_cons.1 h1
+      have p2 := List.pairwise_cons.1 h2
+      have hb : b ∈ a :: r1 := by
+        have : b ∈ (a :: r1).filter (fun x => key x = key b) := by rw [hf (key b)]; simp
+        exact (List.mem_filter.1 this).1
+      have ha : a ∈ b :: r2 := by
+        have : a ∈ (b :: r2).filter (fun x => key x = key a) := by rw [← hf (key a)]; simp
+        exact (List.mem_filter.1 this).1
+      have hab : ¬ LexLt (key b) (key a) := by
+        rcases List.mem_cons.1 hb with rfl | hb
+        · intro h; exact absurd h (by rw [lexLt_iff, strLt_irrefl]; exact Bool.false_ne_true)
+        · exact p1.1 b hb
+      have hba : ¬ LexLt (key a) (key b) := by
+        rcases List.mem_cons.1 ha with rfl | ha
+        · intro h; exact absurd h (by rw [lexLt_iff, strLt_irrefl]; exact Bool.false_ne_true)
+        · exact p2.1 a ha
+      have hk : key a = key b := by
+        rcases lexLt_total (key a) (key b) with h | h | h
+        · exact absurd h hba
+        · exact h
+        · exact absurd h hab
+      have hhead : a = b := by
+        have := hf (key a)
+        rw [List.filter_cons, List.filter_cons, if_pos (by simp), if_pos (by simp [hk])] at this
+        exact (List.cons.inj this).1
+      subst hhead
+      congr 1
+      apply ih r2 p1.2 p2.2
+      intro k
+      have := hf k
+      rw [List.filter_cons, List.filter_cons] at this
+      split at this
+      · exact (List.cons.inj this).2
+      · exact this
+
+/-! ### which commands touch the variable table -/
+
+theorem runCommand_vars_same (fuel : Nat) (inp : Input) (c : Command) (s s' : St) (h : runCommand fuel inp c s = .ok s')
+    (hc : upper c.name = "SORT".toList ∨ upper c.name = "READ".toList ∨ upper c.name = "MACRO".toList) :
+    s'.vars = s.vars := by
+  rcases hc with hc | hc | hc
+  · rw [runCommand_sort fuel inp c s hc] at h
+    split at h
+    · cases h
+    · cases h; rfl
+  · exact (runCommand_read fuel inp c s s' hc h).2.1
+  · unfold runCommand at h
+    simp +decide only [hc, ↓reduceIte] at h
+    repeat' (split at h)
+    all_goals first | (cases h; done) | (cases h; rfl)
+
+theorem runCommand_vars_persist (fuel : Nat) (inp : Input) (c : Command) (s s' : St) (h : runCommand fuel inp c s = .ok s')
+    (hc : upper c.name = "ITERATE".toList ∨ upper c.name = "REVERSE".toList ∨ upper c.name = "EXECUTE".toList) :
+    VarsPersist s.vars s'.vars := by
+  rcases hc with hc | hc | hc
+  · unfold runCommand at h
+    simp +decide only [hc, ↓reduceIte] at h
+    repeat' (split at h)
+    all_goals first | (cases h; done) | exact (iterate_frame _ _ _ _ _ h).2.2.2.2.1
+  · unfold runCommand at h
+    simp +decide only [hc, ↓reduceIte] at h
+    repeat' (split at h)
+    all_goals first | (cases h; done) | exact (iterate_frame _ _ _ _ _ h).2.2.2.2.1
+  · unfold runCommand at h
+    simp +decide only [hc, ↓reduceIte] at h
+    repeat' (split at h)
+    all_goals first | (cases h; done) | exact ((exec_frame _).2.2.1 _ _ _ h).vars
+
 end Pybtex.Interp
